@@ -220,11 +220,13 @@ _AST_OBJ_RE = re.compile(r"<(?:_?ast\.)(\w+) object")
 
 
 def visited_node(frames, message: str, fallback: str) -> str:
-    """AST node type being visited when it crashed = the deepest visitor method in the traceback (visit_X of the main
-    visitor or of the annotation visitor, composite_from_x); for generic_visit the node named in the message; the
-    node the catch-all reported on only as a fallback (it is the nearest *dispatched* ancestor, which depends on context)."""
+    """Third key component: the AST node type being visited, *if the crash site determines it* - i.e. the innermost
+    pyanalyze frame is itself a visitor method (visit_X of the main or the annotation visitor, composite_from_x, or
+    generic_visit, whose message names the node).  A crash inside a helper that is reachable from many node kinds
+    (boolability, signature binding, typeshed lookup, ...) gets '-': the node on which the catch-all happened to report
+    is the nearest dispatched ancestor and differs from program to program for one and the same defect."""
     for file, _lineno, func in reversed(frames):
-        if _PKG not in file:
+        if _PKG not in file or os.sep + "vp" + os.sep in file:
             continue
         func = func.strip().split(".")[-1]
         if func == "generic_visit":
@@ -232,11 +234,12 @@ def visited_node(frames, message: str, fallback: str) -> str:
             if m:
                 return m.group(1)
         m = _VISIT_RE.match(func)
-        if m:
+        if m and m.group(1)[:1].isupper():
             return _SAME_VISITOR.get(m.group(1), m.group(1))
         m = _COMPOSITE_RE.search(func)
         if m:
             return _COMPOSITE[m.group(1)]
+        return "-"
     return fallback
 
 
